@@ -270,7 +270,7 @@ register('C18', title='windowing utilities',
 register('C20', title='plots draw the analysis',
          deciding=['figure_inspected'],
          rule='generated: cycle tables of both centrings and both methods at fs in {100,128,250,500,1000,1024,2000,44100} (float-unfriendly '
-              'lengths included) x x-limits {None, random on the sample grid, starting exactly on a side extremum, ending exactly on / one '
+              'lengths included) x x-limits {None, random on the sample grid, starting on a sample k whose time multiplies back to just below k, starting exactly on a side extremum, ending exactly on / one '
               'past a side extremum, window without a complete cycle} (limits k/fs only for k with k/fs == k*(1/fs)) x plot_only_result x '
               'interp x the cyclepoint-kind switches; plot_cyclepoints_df, plot_cyclepoints_array (all first_extrema values), '
               'plot_burst_detect_summary and Bycycle.plot. Oracle (artist inspector under Agg): every marker at a sample time, on a genuine '
